@@ -40,10 +40,18 @@ func (t Tree) IsValid(b []byte) error {
 		return e.Wrap(err)
 	}
 
+	keys := map[string]struct{}{}
+
 	if err := t.Traverse(func(index uint64, n Node) (bool, error) {
 		if err := n.IsValid(b); err != nil {
 			return false, err
 		}
+
+		if _, found := keys[n.Key()]; found {
+			return false, errors.Errorf("duplicated key found, %q", n.Key())
+		}
+
+		keys[n.Key()] = struct{}{}
 
 		children, err := childrenNodes(t.nodes, index)
 
